@@ -12,7 +12,7 @@ import numpy as np
 
 from vf.core import Machinery
 
-TOG = dict(WeightByExamples=True, FreshClientOpt=True, RoundParams=True, ZeroGuard=True, CarryServerOpt=True, ProxOnRound=True, AdvanceKey=True)
+TOG = dict(WeightByExamples=True, FreshClientOpt=True, RoundParams=True, ZeroGuard=True, CarryServerOpt=True, ProxOnRound=True, AdvanceKey=True, ApplyOnEmpty=True)
 
 
 def R(x):
